@@ -189,18 +189,30 @@ package stree
 //@   at exit: ghost t.vals = upd(t.vals, rank(t.compare, key), key)
 //@
 // popMinRight detaches the leftmost node of root.right and returns it; the ghost fields of the nodes on the way down
-// all lose that node and its key. Assumed here, checked by the bounded stand-in (the spine needs a bulk ghost update).
+// (the spine: the nodes of root.right's subtree that have the detached node below them) all lose that node and its
+// key, in one bulk ghost update per field.
 //@ func popMinRight
 //@   ghost cmp func(T, T) int
 //@   requires root != nil && root.right != nil && treeOK(root, cmp)
-//@   ensures [assumed] goat: result != nil && old(result in root.right.desc) && result != root && result.left == nil && result.right == nil && result.X == old(result.X) && result.X == old(root.right.rep[rank(cmp, result.X)])
-//@   ensures [assumed] least: old(rank(cmp, result.X) in root.right.keys) && forall k int :: {old(k in root.right.keys)} old(k in root.right.keys) ==> rank(cmp, result.X) <= k
-//@   ensures [assumed] rest: treeOK(root.right, cmp) && (forall k int :: {inK(root.right, k)} inK(root.right, k) <==> old(k in root.right.keys) && k != rank(cmp, result.X))
+//@   ensures [C01,C04] goat: result != nil && old(result in root.right.desc) && result != root && result.left == nil && result.right == nil && result.X == old(result.X) && result.X == old(root.right.rep[rank(cmp, result.X)])
+//@   ensures [C01,C04] least: old(rank(cmp, result.X) in root.right.keys) && forall k int :: {old(k in root.right.keys)} old(k in root.right.keys) ==> rank(cmp, result.X) <= k
+//@   ensures [C01,C04] rest: treeOK(root.right, cmp) && (forall k int :: {inK(root.right, k)} inK(root.right, k) <==> old(k in root.right.keys) && k != rank(cmp, result.X))
 //@+      && (forall y ref :: {inD(root.right, y)} inD(root.right, y) <==> old(y in root.right.desc) && y != result)
 //@+      && (forall k int :: {root.right.rep[k]} inK(root.right, k) ==> root.right.rep[k] == old(root.right.rep[k]))
-//@   ensures [assumed] top: root.left == old(root.left) && root.X == old(root.X) && root.keys == old(root.keys) && root.desc == old(root.desc) && root.cnt == old(root.cnt) && root.rep == old(root.rep) && cntOf(root.right) == old(cntOf(root.right)) - 1
-//@   ensures [assumed] frame: forall y *node[T] :: {y.left} {y.right} {y.X} {y.keys} {y.desc} old(allocated(y)) && !old(y in root.right.desc) && y != root ==> sameNode(y)
+//@   ensures [C01,C04] top: root.left == old(root.left) && root.X == old(root.X) && root.keys == old(root.keys) && root.desc == old(root.desc) && root.cnt == old(root.cnt) && root.rep == old(root.rep) && cntOf(root.right) == old(cntOf(root.right)) - 1
+//@   ensures [C01,C04] frame: forall y *node[T] :: {y.left} {y.right} {y.X} {y.keys} {y.desc} old(allocated(y)) && !old(y in root.right.desc) && y != root ==> sameNode(y)
 //@   modifies every(root.left), every(root.right), every(root.keys), every(root.desc), every(root.cnt), every(root.rep)
+//@   at entry: ghost D0 = root.right.desc
+//@   at entry: ghost K0 = root.right.keys
+//@   loop 1: invariant [C01,C04] spine: goat != nil && goat in D0 && (par == root ==> goat == root.right) && (par != root ==> par in D0 && par.left == goat && par != goat)
+//@   loop 1: invariant [C01,C04] least: forall k int :: {k in K0} k in K0 ==> k in goat.keys || k > rank(cmp, goat.X)
+//@   loop 1: decreases cntOf(goat)
+//@   at after "goat.right = nil": ghost gk = rank(cmp, goat.X)
+//@   at after "goat.right = nil": assert [C01,C04] forall k int :: {k in K0} k in K0 ==> k >= gk
+//@   at after "goat.right = nil": assert [C01,C04] forall y *node[T] :: {y in D0} y in D0 && goat in y.desc && y != goat ==> y.left != nil && (y.left == goat || goat in y.left.desc) && gk in y.keys && !(inK(y.right, gk))
+//@   at after "goat.right = nil": ghost every(root.keys) = lambda y *node[T] :: ite(y in D0 && goat in y.desc && y != goat, setdel(y.keys, gk), y.keys)
+//@   at after "goat.right = nil": ghost every(root.cnt) = lambda y *node[T] :: ite(y in D0 && goat in y.desc && y != goat, y.cnt - 1, y.cnt)
+//@   at after "goat.right = nil": ghost every(root.desc) = lambda y *node[T] :: ite(y in D0 && goat in y.desc && y != goat, setdel(y.desc, goat), y.desc)
 //@
 //@ func (*node).remove
 //@   role compare ord
